@@ -88,7 +88,7 @@ ASSUMPTIONS = [
 
 SETTINGS = {
     # tier: (E2 cases, E3 restart cases, E3 watch cases, max_phases, processes); ENV_MULTI_CASES below
-    "quick": (22, 60, 60, 3, 4),
+    "quick": (22, 60, 60, 3, 6),
     "thorough": (120, 1200, 1200, 5, 8),
 }
 NGLOB_CASES = {"quick": 40, "thorough": 600}
@@ -575,6 +575,12 @@ def _run_fixed_witnesses(ctx):
         ctx.count(f"e3:witness:optional-upstream:{flavour}:reproduced={res['reproduced']}")
         ctx.case(("e3witness", "optional-upstream", flavour), nontrivial=True)
         rep = res["report"]
+        for name in res.get("too_wide", [])[:1]:
+            ctx.add_failure("oracle", "E3:witness", f"oracle:cone:d38-signature-not-specific:{name}",
+                            f"the classifier of the known finding D38 (c04_e3.optional_upstream_shape) accepts the "
+                            f"witness with one fact changed ({name}): its signature would swallow another violation",
+                            witness={"item": c04_e3.optional_upstream_item(flavour), "variant": name})
+        ctx.count(f"e3:witness:optional-upstream:{flavour}:signature-specific={not res.get('too_wide')}")
         for f in res["other"][:1]:
             ctx.add_failure("oracle", "E3:witness", f["signature"], f"fixed witness optional-upstream ({flavour}): "
                             + f["detail"][:400], witness={"item": c04_e3.optional_upstream_item(flavour)})
@@ -623,7 +629,7 @@ def _check_engine_terms(ctx):
         ctx.case(("engine", item["seed"], item["flavour"]), nontrivial=bool(rep["cone_log"]["skipped"]))
     for b in bad[:2]:
         item, rep = pairs[b]
-        term = rep["engine_term"].replace("wf proj && check_cone_hist", "trace_cone_hist")
+        term = rep["engine_term"].replace("check_cone_dyn", "trace_cone_dyn", 1)
         got = common.eval_terms(ctx, "c04enginediag", ENGINE_HEADER, [term])
         ctx.add_failure("correspondence", "E3:Engine", f"E3:engine:{item['flavour']}:executed-or-skipped-set-differs",
                         f"seed {item['seed']} ({rep.get('variant')}): model/Engine.v and the real director disagree on "
